@@ -233,16 +233,6 @@ theorem runTrial_final (cfg : Cfg) (s : Script) :
     · rfl
     · split <;> rfl
 
-/-- The elements `_check_values_are_feasible` will look at for this script. -/
-def retElems (s : Script) : List Elem :=
-  match s.out with
-  | .ret v => (v.elems?).getD []
-  | _ => []
-
-theorem retElems_ret (s : Script) (v : PyVal) (es : List Elem) (ho : s.out = .ret v)
-    (hes : v.elems? = some es) : retElems s = es := by
-  unfold retElems; rw [ho]; simp [hes]
-
 theorem initRec_state (s : Script) :
     (s.pre = none ∧ s.initRec.state = .running) ∨
     (∃ p, s.pre = some p ∧ s.initRec.state = p.1.toState ∧ s.initRec.values = p.2) := by
@@ -308,15 +298,13 @@ theorem scriptDecision_raise (cfg : Cfg) (s : Script) (e : Exc) (h : scriptDecis
   | pruned => rw [scriptDecision_pruned cfg s ho] at h; cases h
   | exc e' => rw [scriptDecision_exc cfg s e' ho] at h; cases h
 
-/-- **runTrial_terminal_partial** (`_partial`: the full-strength statement — no hypothesis on the
-returned value — is FALSE on today's tree, see `foreign_cast_leaves_running`; what is missing is exactly
-the case "float(element) raises a class the `except` clause does not name") — for every objective outcome, report history, sampler post-processing
-behaviour (returns / raises / is interrupted), interference by another worker before or during the
-final tell, `catch` tuple and number of objectives: provided no element of a returned value makes
-`float(·)` raise a class outside (ValueError, TypeError, OverflowError), the trial is COMPLETE, PRUNED
-or FAIL when `_run_trial` returns or raises.  (The hypothesis cannot be dropped on today's tree:
-`foreign_cast_leaves_running` below.) -/
-theorem runTrial_terminal_partial (cfg : Cfg) (s : Script) (hnf : NoForeignCast (retElems s)) :
+/-- **runTrial_terminal** — for every objective outcome (any returned value as the code can probe it,
+TrialPruned, any Exception, KeyboardInterrupt), report history, sampler post-processing behaviour
+(returns / raises / is interrupted), interference by another worker before or during the final tell,
+`catch` tuple and number of objectives: the trial is COMPLETE, PRUNED or FAIL when `_run_trial` returns
+or raises.  No hypothesis on the returned value is needed any more: `float(v)` raising *any* exception
+class makes the value infeasible (`castCaught_all`, tied to the source by `gen_castCaught`). -/
+theorem runTrial_terminal (cfg : Cfg) (s : Script) :
     (runTrial cfg s).final.state.isFinished = true := by
   rw [runTrial_final]
   rcases initRec_state s with ⟨hpre, _⟩ | ⟨p, _, hst, _⟩
@@ -324,9 +312,8 @@ theorem runTrial_terminal_partial (cfg : Cfg) (s : Script) (hnf : NoForeignCast 
     cases hd : scriptDecision cfg s with
     | raise e =>
       exfalso
-      obtain ⟨v, es, c, ho, hes, hsc, _⟩ := scriptDecision_raise cfg s e hd
-      rw [retElems_ret s v es ho hes] at hnf
-      exact scan_not_raises es hnf c hsc
+      obtain ⟨v, es, c, _, _, hsc, _⟩ := scriptDecision_raise cfg s e hd
+      exact scan_not_raises es c hsc
     | go st vals warn => exact postProcess_finished _ _ _ _ _ _
   · have hfin : s.initRec.state.isFinished = true := by rw [hst]; exact finState_finished _
     rw [tell_of_finished _ _ _ _ hfin]
@@ -335,47 +322,20 @@ theorem runTrial_terminal_partial (cfg : Cfg) (s : Script) (hnf : NoForeignCast 
 example : (runTrial ⟨1, fun _ => false⟩ { out := .ret (.scalar (.bad .overflowError)) }).final.state = .fail := by
   decide
 
-/-- On today's tree the hypothesis of `runTrial_terminal_partial` is needed: an objective that returns an
-object whose `__float__` raises e.g. RuntimeError (class id 7 here) leaves its trial RUNNING and
-`_run_trial` dies with AssertionError.  Replayed on the real code by the harness (finding
-`foreign-cast-error`). -/
-theorem foreign_cast_leaves_running :
-    ∃ s : Script, (runTrial ⟨1, fun _ => false⟩ s).final.state = .running ∧
-      (runTrial ⟨1, fun _ => false⟩ s).raised = some .assertionError :=
-  ⟨{ out := .ret (.scalar (.bad (.other 7))) }, by decide⟩
+/-- Regression witness of the repaired defect: an objective that returns an object whose `__float__`
+raises e.g. RuntimeError (class id 7) now ends FAIL without values and `_run_trial` returns normally
+(before the repair: RUNNING + AssertionError).  The harness replays it on the real code every run. -/
+example : runTrial ⟨1, fun _ => false⟩ { out := .ret (.scalar (.bad (.other 7))) }
+    = ⟨{ state := .fail }, none⟩ := by decide
+example : runTrial ⟨2, fun _ => false⟩ { out := .ret (.seq [.bad (.other 7), .ok .nan]) }
+    = ⟨{ state := .fail }, none⟩ := by decide
 
-/-- Exactly which scripts leave the trial RUNNING: nobody else finished it and the scan of the
-returned value hits an element whose `float()` raises an un-named class before it hits an
-infeasible one. -/
-theorem runTrial_running_iff (cfg : Cfg) (s : Script) :
-    (runTrial cfg s).final.state = .running ↔
-      s.pre = none ∧ ∃ v es c, s.out = .ret v ∧ v.elems? = some es ∧ scan es = .raises c := by
-  constructor
-  · intro h
-    rcases initRec_state s with ⟨hpre, _⟩ | ⟨p, _, hst, _⟩
-    · refine ⟨hpre, ?_⟩
-      rw [runTrial_final, tell_of_script cfg s hpre] at h
-      cases hd : scriptDecision cfg s with
-      | raise e =>
-        obtain ⟨v, es, c, ho, hes, hsc, _⟩ := scriptDecision_raise cfg s e hd
-        exact ⟨v, es, c, ho, hes, hsc⟩
-      | go st vals warn =>
-        rw [hd] at h
-        have := postProcess_finished s.env s.initRec st vals warn true
-        simp only [] at h
-        rw [h] at this
-        cases this
-    · exfalso
-      have hfin : s.initRec.state.isFinished = true := by rw [hst]; exact finState_finished _
-      rw [runTrial_final, tell_of_finished _ _ _ _ hfin] at h
-      rw [h] at hfin
-      cases hfin
-  · rintro ⟨hpre, v, es, c, ho, hes, hsc⟩
-    rw [runTrial_final, tell_of_script cfg s hpre, scriptDecision_ret cfg s v ho, hes]
-    have : checkValuesFeasible cfg.nObj es = .raises c := by
-      unfold checkValuesFeasible; rw [hsc]
-    simp only [decideState, this]
-    exact initRec_running s hpre
+/-- `_run_trial` never leaves the trial RUNNING (nor WAITING). -/
+theorem runTrial_not_running (cfg : Cfg) (s : Script) : (runTrial cfg s).final.state ≠ .running := by
+  intro h
+  have := runTrial_terminal cfg s
+  rw [h] at this
+  cases this
 
 /-- Nobody but this worker touches the trial. -/
 def Undisturbed (s : Script) : Prop := s.pre = none ∧ s.env.interfere = none
@@ -573,8 +533,7 @@ example : runTrial ⟨1, fun _ => false⟩ { out := .exc .kbd } = ⟨{ state := 
 /-- In a quiet environment (`after_trial` returns, nobody interferes) `_run_trial` raises exactly
 when the objective raised something `catch` does not list (and then raises that); a returned value
 (feasible or not) and TrialPruned never make it raise. -/
-theorem quiet_raises_iff (cfg : Cfg) (s : Script) (hu : Undisturbed s) (ha : s.env.after = .ok)
-    (hnf : NoForeignCast (retElems s)) :
+theorem quiet_raises_iff (cfg : Cfg) (s : Script) (hu : Undisturbed s) (ha : s.env.after = .ok) :
     (runTrial cfg s).raised = match s.out with
       | .exc e => if cfg.catches e then none else some e
       | _ => none := by
@@ -593,9 +552,7 @@ theorem quiet_raises_iff (cfg : Cfg) (s : Script) (hu : Undisturbed s) (ha : s.e
     · rw [h]
       simp [postProcess, hu.2, ha, afterTell, finallyAsserts, Rec.store, FinState.toState, ho,
         Script.hasFuncErr]
-    · exfalso
-      rw [retElems_ret s v es ho hes] at hnf
-      exact scan_not_raises es hnf c hsc
+    · exact absurd hsc (scan_not_raises es c)
 
 /-! ## 3. `_optimize_sequential` -/
 
@@ -818,20 +775,20 @@ example : (optimizeSeq ⟨1, fun _ => false⟩ (some 2) none
     [{ script := { out := .ret (.scalar (.ok (.fin 1))) }, cbs := [{}, {}] },
      { script := { out := .exc (.user 1) }, cbs := [{}, {}] }] 0 0 false).cbLog = [(0, 0), (0, 1)] := by decide
 
-/-- **optimizeSeq_all_terminal_partial** — when the loop returns or raises, every trial it started is COMPLETE,
-PRUNED or FAIL (none RUNNING), provided no `ask` raised and no returned value has a foreign cast error
-(the two findings on today's tree; see `ask_raise_leaves_running`, `foreign_cast_leaves_running`). -/
+/-- **optimizeSeq_all_terminal_partial** (`_partial`: the full-strength statement — no hypothesis — is
+FALSE on today's tree, see `ask_raise_leaves_running` (known finding "sampler-raises-in-ask"); what is
+missing is exactly the case "`study.ask()` inside `_run_trial` raises") — when the loop returns or
+raises, every trial it started is COMPLETE, PRUNED or FAIL (none RUNNING), provided no `ask` raised. -/
 theorem optimizeSeq_all_terminal_partial (cfg : Cfg) (nT to : Option Nat) (plans : List TrialPlan) (i el : Nat)
-    (stop : Bool) (hnf : ∀ p ∈ plans, p.askRaises = none ∧ NoForeignCast (retElems p.script)) :
+    (stop : Bool) (hask : ∀ p ∈ plans, p.askRaises = none) :
     ∀ ro ∈ (optimizeSeq cfg nT to plans i el stop).trials, ro.final.state.isFinished = true := by
   obtain ⟨h1, _⟩ := optimizeSeq_shape cfg nT to plans i el stop
   intro ro hro
   rw [h1] at hro
   obtain ⟨p, hp, rfl⟩ := List.mem_map.1 hro
-  have := hnf p (List.mem_of_mem_take hp)
   unfold runPlan
-  rw [this.1]
-  exact runTrial_terminal_partial cfg p.script this.2
+  rw [hask p (List.mem_of_mem_take hp)]
+  exact runTrial_terminal cfg p.script
 
 example : ∀ ro ∈ (optimizeSeq ⟨1, fun _ => false⟩ (some 3) none
     [{ script := { out := .ret (.scalar (.ok .nan)) } }, { script := { out := .pruned } },
@@ -965,7 +922,7 @@ against the same `Pool.step`. -/
 
 open Pool in
 /-- **optimizePool_every_future_observed** — in every execution, when `_optimize(n_jobs = k)` returns
-or raises: every future it submitted has finished (so, by `runTrial_terminal_partial`, the trial that future
+or raises: every future it submitted has finished (so, by `runTrial_terminal`, the trial that future
 ran is terminal); if it *returns*, every future returned normally — no exception raised in a worker
 is ever swallowed; if it raises class `c`, some future raised `c`. -/
 theorem optimizePool_every_future_observed (k : Nat) (n : Option Nat) (es : List Event) (s : State)
@@ -1032,8 +989,8 @@ theorem gen_checkStateAndValues (s : Option TState) (b : Bool) :
   | none => cases b <;> rfl
   | some st => cases st <;> cases b <;> rfl
 
-/-- The `except` tuple of `_check_values_are_feasible` as read from the source catches exactly the
-cast errors the model says it catches. -/
+/-- The `except` clause of `_check_values_are_feasible` as read from the source (`except Exception`)
+catches exactly the cast errors the model says it catches: all of them. -/
 theorem gen_castCaught (e : CastExc) : TellGen.castCaught e = Tell.castCaught e := by
   cases e <;> first | decide | (simp only [TellGen.castCaught, Tell.castCaught]; decide)
 
